@@ -345,7 +345,7 @@ def run(ctx, res):
             keys.append((i, sh))
             text = emitlib.script_of(st.get('SCRIPT'))
             if text is not None:
-                reqs.append('readscript %s %s' % (sh, sexp.quote(text)))
+                reqs.append('readscript %s "cmd" %s' % (sh, sexp.quote(text)))
                 keys.append((i, sh, 'read'))
             if sh == 'bash':
                 if text is not None:
